@@ -176,21 +176,14 @@ Lemma okrel_safe : okrel Rsafe.
 Proof. split; unfold Rsafe; eauto. intros a r b1 b2 [[x ->] | ->] [[y ->] | ->]; simpl; eauto; destruct x; simpl; eauto. Qed.
 
 (* ---------- hereditary side conditions ---------- *)
-Fixpoint notup (v : val) : bool :=
-  match v with
-  | Idx k _ => ndk k
-  | MSome a | ELeft a | ERight a => notup a
-  | Tuple l => forallb notup l
-  | _ => true
-  end.
 Definition leafy (v : val) : bool :=
   match v with Num _ | Idx _ _ | Arr _ _ | Tuple _ => true | _ => false end.
 
 (* ---------- Spec: symmetry, reflexivity ---------- *)
 Lemma lspec_sym r x y : (forall a b, r a b = r b a) -> lspec r x y = lspec r y x.
 Proof.
-  intros Hr. destruct x, y; simpl; auto; rewrite ?(all2_sym Z.eqb _ Z.eqb_sym), ?(all2_sym r _ Hr); auto.
-  all: try (destruct (arr_of _) as [[? ?]|]; reflexivity).
+  intros Hr. destruct x, y; unfold lspec, arr_of; auto;
+    try (f_equal; [apply all2_sym; exact Z.eqb_sym | apply all2_sym; exact Hr]).
 Qed.
 
 Lemma gspec_sym r : (forall a b, r a b = r b a) -> forall x y, gspec r x y = gspec r y x.
@@ -254,44 +247,312 @@ Section GenericProof.
     okE e x y -> okE e x' y'.
   Proof. unfold okE. intuition. Qed.
 
+  Lemma gspec_leaf_e r x b : leafy x = true ->
+    gspec r x (ELeft b) = gspec r x b /\ gspec r x (ERight b) = gspec r x b.
+  Proof. destruct x; intros H; try discriminate; split; reflexivity. Qed.
+  Lemma gspec_e_leaf r a y : leafy y = true ->
+    gspec r (ELeft a) y = gspec r a y /\ gspec r (ERight a) y = gspec r a y.
+  Proof. destruct y; intros H; try discriminate; split; reflexivity. Qed.
+  Lemma cmp_d_leaf_e x b e : leafy x = true ->
+    cmp_d leaf ee x (ELeft b) e = (if same_concept b x then cmp_d leaf ee x b (ee e) else Ret false) /\
+    cmp_d leaf ee x (ERight b) e = (if same_concept b x then cmp_d leaf ee x b (ee e) else Ret false).
+  Proof. destruct x; intros H; try discriminate; split; reflexivity. Qed.
+  Lemma cmp_d_e_leaf a y e : leafy y = true ->
+    cmp_d leaf ee (ELeft a) y e = (if same_concept a y then cmp_d leaf ee a y (ee e) else Ret false) /\
+    cmp_d leaf ee (ERight a) y e = (if same_concept a y then cmp_d leaf ee a y (ee e) else Ret false).
+  Proof. destruct y; intros H; try discriminate; split; reflexivity. Qed.
+
   Ltac wsplit := repeat match goal with H : (_ && _) = true |- _ => apply andb_prop in H; destruct H end.
+
+  Ltac sub_tac Hok := revert Hok; apply okE_sub; cbn; intros; try discriminate; wsplit; auto.
 
   Lemma cmp_d_R : forall x, wfb x = true -> forall y e, wfb y = true -> okE e x y ->
     R (cmp_d leaf ee x y e) (gspec (pnum e) x y).
   Proof.
     destruct HR as [Rret Rrej Rand].
     induction x as [z|k l|s d| |a IHa|a IHa|a IHa|l IHl] using val_ind'; intros Hwx;
-      induction y as [z'|k' l'|s' d'| |b IHb|b IHb|b IHb|l' IHl'] using val_ind'; intros e Hwy Hok;
-      try (cbn; apply Rret);
-      try (cbn; apply leaf_ok; auto; fail);
-      try (cbn; rewrite ?leaf_tuple_l, ?leaf_tuple_r; apply Rrej).
-    (* x leaf, y = MSome / ELeft / ERight : recursion on y *)
-    all: try match goal with
-      | |- R (cmp_d _ _ ?X (MSome ?B) _) _ => cbn; cbn in IHb; apply IHb; [exact Hwy | revert Hok; apply okE_sub; cbn; auto]
+      induction y as [z'|k' l'|s' d'| |b IHb|b IHb|b IHb|l' IHl'] using val_ind'; intros e Hwy Hok.
+    all: try (cbn; apply Rret).
+    all: try (cbn; apply leaf_ok; auto; fail).
+    all: try (cbn; rewrite ?leaf_tuple_l, ?leaf_tuple_r; apply Rrej).
+    all: pose proof Hwx as Hwx0; pose proof Hwy as Hwy0; cbn in Hwx, Hwy; wsplit.
+    all: match goal with
+      | |- R (cmp_d _ _ (MSome _) (MSome _) _) _ => cbn; apply IHa; [assumption | assumption | sub_tac Hok]
+      | |- R (cmp_d _ _ (MSome _) _ _) _ => cbn; apply IHa; [assumption | exact Hwy0 | sub_tac Hok]
+      | |- R (cmp_d _ _ (ELeft _) (ELeft _) _) _ => cbn; apply IHa; [assumption | assumption | sub_tac Hok]
+      | |- R (cmp_d _ _ (ERight _) (ERight _) _) _ => cbn; apply IHa; [assumption | assumption | sub_tac Hok]
+      | |- R (cmp_d _ _ _ (MSome _) _) _ => cbn; cbn in IHb; apply IHb; [assumption | sub_tac Hok]
+      | _ => idtac
       end.
-    all: try match goal with
-      | |- R (cmp_d _ _ (MSome ?A) ?Y _) _ => cbn; apply IHa; [exact Hwx | exact Hwy || (cbn in Hwy; wsplit; assumption) | revert Hok; apply okE_sub; cbn; auto]
-      end.
-    all: cbn in Hwx, Hwy; wsplit.
-    (* one-sided either on the right: x leaf *)
-    all: try match goal with
-      | |- R (cmp_d _ _ ?X (ELeft ?B) _) _ => idtac
-      | |- R (cmp_d _ _ ?X (ERight ?B) _) _ => idtac
-      end.
-    all: cbn.
-    all: try (apply IHa; [assumption | assumption | revert Hok; apply okE_sub; cbn; auto]).
-    (* remaining: one-sided either cases *)
     all: destruct Hok as [[N1 N2]|[Hee [T1 T2]]]; try (cbn in N1, N2; discriminate).
-    all: try (cbn in T1, T2).
-    all: try match goal with
-      | |- R (if same_concept ?A ?Y then _ else _) _ =>
-          destruct (same_concept A Y) eqn:Hc;
-          [ rewrite Hee | ]
+    all: cbn in T1, T2.
+    all: match goal with
+      | |- R (cmp_d _ _ (ELeft ?A) ?Y ?E) _ =>
+          rewrite (proj1 (cmp_d_e_leaf A Y E eq_refl)), (proj1 (gspec_e_leaf (pnum E) A Y eq_refl))
+      | |- R (cmp_d _ _ (ERight ?A) ?Y ?E) _ =>
+          rewrite (proj2 (cmp_d_e_leaf A Y E eq_refl)), (proj2 (gspec_e_leaf (pnum E) A Y eq_refl))
+      | |- R (cmp_d _ _ ?X (ELeft ?B) ?E) _ =>
+          rewrite (proj1 (cmp_d_leaf_e X B E eq_refl)), (proj1 (gspec_leaf_e (pnum E) X B eq_refl))
+      | |- R (cmp_d _ _ ?X (ERight ?B) ?E) _ =>
+          rewrite (proj2 (cmp_d_leaf_e X B E eq_refl)), (proj2 (gspec_leaf_e (pnum E) X B eq_refl))
       end.
-    all: try (apply IHa; [assumption | cbn; auto; fail | right; cbn; auto]).
-    all: try (cbn in IHb; apply IHb; [assumption | right; cbn; auto]).
-    all: try (rewrite (concept_false_l _ _ _ ltac:(eassumption) eq_refl ltac:(cbn; auto) Hc); apply Rret).
-    all: try (rewrite (gspec_sym _ (pnum_sym e)); cbn;
-              rewrite (concept_false_l _ _ _ ltac:(eassumption) eq_refl ltac:(cbn; auto) Hc); apply Rret).
+    all: match goal with
+      | |- R (if same_concept ?A ?Y then _ else _) _ => destruct (same_concept A Y) eqn:Hc; [ rewrite Hee | ]
+      end.
+    all: try (apply IHa; [assumption | exact Hwy0 | right; cbn; auto]; fail).
+    all: try (apply IHb; [assumption | right; cbn; auto]; fail).
+    all: try rewrite (gspec_sym _ (pnum_sym e) (Num _)).
+    all: try rewrite (gspec_sym _ (pnum_sym e) (Idx _ _)).
+    all: try rewrite (gspec_sym _ (pnum_sym e) (Arr _ _)).
+    all: try rewrite (gspec_sym _ (pnum_sym e) (Tuple _)).
+    all: match goal with
+      | He : eitherok ?A = true, Hc : same_concept ?A ?Y = false |- R _ (gspec ?r ?A ?Y) =>
+          rewrite (concept_false_l r A Y He eq_refl ltac:(cbn; auto) Hc); apply Rret
+      end.
+  Qed.
+
+  Lemma okE_tuple e a l b l' : okE e (Tuple (a :: l)) (Tuple (b :: l')) -> okE e a b /\ okE e (Tuple l) (Tuple l').
+  Proof. unfold okE; cbn. intros [[H1 H2]|[H0 [H1 H2]]]; wsplit; split; auto. Qed.
+
+  Lemma cmp_t_R tm : forall x, wfb x = true -> forall y e, wfb y = true -> okE e x y ->
+    R (cmp_t leaf ee pnum tm x y e) (gspec (pnum e) x y).
+  Proof.
+    pose proof cmp_d_R as HD. destruct HR as [Rret Rrej Rand].
+    destruct tm;
+    (induction x as [z|k l|s d| |a IHa|a IHa|a IHa|l IHl] using val_ind'; intros Hwx;
+      induction y as [z'|k' l'|s' d'| |b IHb|b IHb|b IHb|l' IHl'] using val_ind'; intros e Hwy Hok).
+    all: try (cbn; apply Rrej).
+    all: try (cbn; apply Rret).
+    all: try (match goal with |- R (cmp_t _ _ _ _ ?X ?Y ?E) ?S => change (R (cmp_d leaf ee X Y E) S) end;
+              apply HD; assumption).
+    all: match goal with
+      | |- R (cmp_t _ _ _ _ (MSome _) (MSome _) _) _ => cbn; apply IHa; [exact Hwx | exact Hwy | sub_tac Hok]
+      | |- R (cmp_t _ _ _ _ (MSome _) _ _) _ => cbn; apply IHa; [exact Hwx | exact Hwy | sub_tac Hok]
+      | |- R (cmp_t _ _ _ _ _ (MSome _) _) _ => cbn; cbn in IHb; apply IHb; [exact Hwy | sub_tac Hok]
+      | _ => idtac
+      end.
+    (* Idx / Idx and Tuple / Tuple, for both values of top_maybe *)
+    all: match goal with
+      | |- R (cmp_t _ _ _ _ (Idx ?K ?L) (Idx ?K' ?L') ?E) ?S =>
+          change (R (if fixedk K && fixedk K'
+                     then (if (length L =? length L')%nat then Ret (all2 (pnum E) L L') else Reject)
+                     else cmp_d leaf ee (Idx K L) (Idx K' L') E) S);
+          destruct (fixedk K && fixedk K'); [|apply HD; assumption];
+          destruct (Nat.eqb_spec (length L) (length L')) as [El|El]; [|apply Rrej];
+          cbn; unfold zlen; rewrite El, Z.eqb_refl; cbn; apply Rret
+      | _ => idtac
+      end.
+    all: cbn; clear IHl'; cbn in Hwx, Hwy; revert l' Hwy Hok;
+      induction IHl as [|a l Ha Hl IH]; intros [|b l'] Hwy Hok; try apply Rret; try apply Rrej;
+      cbn in Hwx, Hwy; wsplit; apply okE_tuple in Hok as [Hok1 Hok2];
+      apply Rand; [apply Ha; assumption | apply IH; assumption].
   Qed.
 End GenericProof.
+
+(* ---------- the leaves ---------- *)
+Lemma all2_len_absorb f l l' : all2 f l l' = (zlen l =? zlen l') && true && all2 f l l'.
+Proof.
+  destruct (all2 f l l') eqn:E; [|now rewrite andb_false_r].
+  apply all2_length in E. unfold zlen. rewrite E, Z.eqb_refl. reflexivity.
+Qed.
+
+Lemma isequal_arr_spec' nd s d s' d' : pos s \/ pos s' -> zlen d = prod s -> zlen d' = prod s' ->
+  isequal_arr nd s d s' d' = Ret (all2 Z.eqb s s' && all2 Z.eqb d d').
+Proof.
+  intros Hp Hl Hl'. destruct (all2 Z.eqb s s') eqn:Es.
+  - pose proof (all2_eqb_eq _ _ Es). subst s'. assert (pos s) by tauto.
+    rewrite isequal_arr_spec by assumption. now rewrite Es.
+  - unfold isequal_arr. destruct (Nat.eqb_spec (length s) (length s')); simpl; [|reflexivity].
+    now rewrite isequal_idx_spec, Es.
+Qed.
+
+Lemma wf_idx_pos (l : list Z) : negb (length l =? 0)%nat = true -> pos [zlen l] /\ zlen l = prod [zlen l].
+Proof.
+  intros H. apply negb_true_iff, Nat.eqb_neq in H. unfold zlen, pos. simpl. split; [|lia].
+  repeat constructor. lia.
+Qed.
+Lemma wf_arr (s d : list Z) : posb s && (zlen d =? prod s) = true -> pos s /\ zlen d = prod s.
+Proof. intros H. apply andb_prop in H as [H1 H2]. apply posb_pos in H1. split; [assumption | lia]. Qed.
+
+(* operands seen as arrays are well-formed arrays *)
+Lemma as_arr_wf x s d : wfb x = true -> as_arr x = Some (s, d) -> pos s /\ zlen d = prod s.
+Proof.
+  destruct x; simpl; try discriminate.
+  - destruct (ndk k); [|discriminate]. intros H E. injection E as <- <-. now apply wf_idx_pos.
+  - intros H E. injection E as <- <-. now apply wf_arr.
+Qed.
+Lemma as_arr_arr_of x s d : as_arr x = Some (s, d) -> arr_of x = Some (s, d).
+Proof. destruct x; simpl; try discriminate; auto. destruct (ndk k); [auto|discriminate]. Qed.
+
+Lemma lspec_arr r x y s d s' d' : arr_of x = Some (s, d) -> arr_of y = Some (s', d') ->
+  lspec r x y = all2 Z.eqb s s' && all2 r d d'.
+Proof. destruct x, y; simpl; try discriminate; intros E E'; injection E as <- <-; injection E' as <- <-; reflexivity. Qed.
+
+Lemma leaf_eq_ok nd e x y : leafy x = true -> leafy y = true -> wfb x = true -> wfb y = true ->
+  Rexact (leaf_eq nd e x y) (lspec Z.eqb x y).
+Proof.
+  intros Lx Ly Wx Wy. unfold Rexact.
+  destruct x as [a|k l|s d| | | | |lx]; try discriminate; destruct y as [b|k' l'|s' d'| | | | |ly]; try discriminate.
+  all: try (left; reflexivity).
+  all: try (right; cbn; try destruct (ndk _); reflexivity).
+  - left. unfold leaf_eq. rewrite isequal_idx_spec. f_equal. cbn. apply all2_len_absorb.
+  - unfold leaf_eq. destruct (as_arr (Idx k l)) as [[s d]|] eqn:E; [|now right].
+    destruct (as_arr_wf _ _ _ Wx E). destruct (as_arr_wf (Arr s' d') s' d' Wy eq_refl).
+    left. cbn [as_arr]. rewrite isequal_arr_spec' by tauto.
+    now rewrite (lspec_arr Z.eqb (Idx k l) (Arr s' d') s d s' d' (as_arr_arr_of _ _ _ E) eq_refl).
+  - unfold leaf_eq. destruct (as_arr (Idx k' l')) as [[s' d']|] eqn:E; [|now right].
+    destruct (as_arr_wf _ _ _ Wy E). destruct (as_arr_wf (Arr s d) s d Wx eq_refl).
+    left. cbn [as_arr]. rewrite isequal_arr_spec' by tauto.
+    now rewrite (lspec_arr Z.eqb (Arr s d) (Idx k' l') s d s' d' eq_refl (as_arr_arr_of _ _ _ E)).
+  - left. cbn [leaf_eq as_arr]. destruct (wf_arr _ _ Wx), (wf_arr _ _ Wy).
+    now rewrite isequal_arr_spec' by tauto.
+Qed.
+
+Lemma leaf_cl_arr_cases nd e x y : leafy x = true -> leafy y = true ->
+  (exists a b, x = Num a /\ y = Num b) \/
+  (exists s d s' d', as_arr x = Some (s, d) /\ as_arr y = Some (s', d') /\ leaf_cl nd e x y = isclose_arr nd e s d s' d') \/
+  leaf_cl nd e x y = Reject.
+Proof.
+  intros Lx Ly.
+  destruct x as [a|k l|s d| | | | |lx]; try discriminate; destruct y as [b|k' l'|s' d'| | | | |ly]; try discriminate.
+  all: try (left; eauto; fail).
+  all: unfold leaf_cl.
+  all: try (destruct (as_arr (Idx k l)) as [[s0 d0]|] eqn:E1; [|right; right; reflexivity]).
+  all: try (destruct (as_arr (Idx k' l')) as [[s1 d1]|] eqn:E2; [|right; right; reflexivity]).
+  all: try (right; right; reflexivity).
+  all: right; left; cbn [as_arr]; do 4 eexists; repeat split; reflexivity.
+Qed.
+
+Lemma leaf_cl_debug_ok e x y : leafy x = true -> leafy y = true -> wfb x = true -> wfb y = true ->
+  Rabort (leaf_cl false e x y) (lspec (close e) x y).
+Proof.
+  intros Lx Ly Wx Wy. unfold Rabort.
+  destruct (leaf_cl_arr_cases false e x y Lx Ly) as [(a & b & -> & ->)|[(s & d & s' & d' & E & E' & ->) | ->]]; auto.
+  destruct (as_arr_wf _ _ _ Wx E), (as_arr_wf _ _ _ Wy E').
+  rewrite (lspec_arr _ _ _ _ _ _ _ (as_arr_arr_of _ _ _ E) (as_arr_arr_of _ _ _ E')).
+  destruct (isclose_arr_debug e s d s' d') as [-> | ->]; auto.
+Qed.
+Lemma leaf_cl_ndebug_safe e x y : leafy x = true -> leafy y = true -> wfb x = true -> wfb y = true ->
+  Rsafe (leaf_cl true e x y) (lspec (close e) x y).
+Proof.
+  intros Lx Ly Wx Wy. unfold Rsafe.
+  destruct (leaf_cl_arr_cases true e x y Lx Ly) as [(a & b & -> & ->)|[(s & d & s' & d' & E & E' & ->) | ->]]; auto.
+  - left. cbn. eauto.
+  - destruct (as_arr_wf _ _ _ Wx E), (as_arr_wf _ _ _ Wy E'). left. now apply isclose_arr_ndebug_safe.
+Qed.
+
+Lemma close_sym e a b : close e a b = close e b a.
+Proof. unfold close. replace (b - a) with (- (a - b)) by ring. now rewrite Z.abs_opp. Qed.
+Lemma close_refl e a : 0 < e -> close e a a = true.
+Proof. intros H. unfold close. rewrite Z.sub_diag. simpl. lia. Qed.
+
+Lemma pair_dom_okE ee e x y : pair_dom x y = true -> ee e = e -> okE ee e x y.
+Proof.
+  unfold pair_dom, okE. intros H He. apply orb_prop in H as [H|H]; apply andb_prop in H as [H1 H2]; auto.
+Qed.
+
+(* ---------- the statements ---------- *)
+Lemma leaf_eq_tl nd e l y : leaf_eq nd e (Tuple l) y = Reject.
+Proof. destruct y; reflexivity. Qed.
+Lemma leaf_eq_tr nd e x l : leaf_eq nd e x (Tuple l) = Reject.
+Proof. destruct x; try reflexivity. cbn. now destruct (ndk k). Qed.
+Lemma leaf_cl_tl nd e l y : leaf_cl nd e (Tuple l) y = Reject.
+Proof. destruct y; reflexivity. Qed.
+Lemma leaf_cl_tr nd e x l : leaf_cl nd e x (Tuple l) = Reject.
+Proof. destruct x; try reflexivity. cbn. now destruct (ndk k). Qed.
+
+Lemma isequal_total nd x y : wfb x = true -> wfb y = true -> pair_dom x y = true ->
+  isequal nd x y = Ret (spec_equal x y) \/ isequal nd x y = Reject.
+Proof.
+  intros Wx Wy D.
+  exact (cmp_t_R (leaf_eq nd) (fun e => e) (fun _ a b => a =? b) Rexact okrel_exact (fun _ => Z.eqb_sym)
+           (leaf_eq_ok nd) (leaf_eq_tl nd) true x Wx y 0 Wy (pair_dom_okE _ 0 x y D eq_refl)).
+Qed.
+Lemma isequal_d_total nd x y : wfb x = true -> wfb y = true -> pair_dom x y = true ->
+  isequal_d nd x y = Ret (spec_equal x y) \/ isequal_d nd x y = Reject.
+Proof.
+  intros Wx Wy D.
+  exact (cmp_d_R (leaf_eq nd) (fun e => e) (fun _ a b => a =? b) Rexact okrel_exact (fun _ => Z.eqb_sym)
+           (leaf_eq_ok nd) (leaf_eq_tl nd) x Wx y 0 Wy (pair_dom_okE _ 0 x y D eq_refl)).
+Qed.
+
+Definition close_dom (eps : Z) (x y : val) : Prop :=
+  (noeither x = true /\ noeither y = true) \/ (eps = default_eps /\ notup x = true /\ notup y = true).
+Lemma close_dom_okE eps x y : close_dom eps x y -> okE (fun _ => default_eps) eps x y.
+Proof. unfold close_dom, okE. intros [D|[-> D]]; auto. Qed.
+
+Lemma isclose_debug_total eps x y : wfb x = true -> wfb y = true -> close_dom eps x y ->
+  isclose false eps x y = Ret (spec_close eps x y) \/ isclose false eps x y = Reject \/ isclose false eps x y = Abort.
+Proof.
+  intros Wx Wy D.
+  exact (cmp_t_R (leaf_cl false) (fun _ => default_eps) close Rabort okrel_abort close_sym
+           (leaf_cl_debug_ok) (leaf_cl_tl false) false x Wx y eps Wy (close_dom_okE _ _ _ D)).
+Qed.
+Lemma isclose_ndebug_safe eps x y : wfb x = true -> wfb y = true -> close_dom eps x y ->
+  (exists b, isclose true eps x y = Ret b) \/ isclose true eps x y = Reject.
+Proof.
+  intros Wx Wy D.
+  exact (cmp_t_R (leaf_cl true) (fun _ => default_eps) close Rsafe okrel_safe close_sym
+           (leaf_cl_ndebug_safe) (leaf_cl_tl true) false x Wx y eps Wy (close_dom_okE _ _ _ D)).
+Qed.
+
+(* ---------- derived statements ---------- *)
+Lemma pair_dom_sym x y : pair_dom x y = pair_dom y x.
+Proof. unfold pair_dom. now rewrite (andb_comm (noeither x)), (andb_comm (notup x)). Qed.
+Lemma pair_dom_diag x : pair_dom x x = noeither x || notup x.
+Proof. unfold pair_dom. now rewrite !andb_diag. Qed.
+
+Lemma isequal_safe nd x y : wfb x = true -> wfb y = true -> pair_dom x y = true ->
+  isequal nd x y <> UB /\ isequal nd x y <> Abort /\ isequal_d nd x y <> UB /\ isequal_d nd x y <> Abort.
+Proof.
+  intros Wx Wy D.
+  destruct (isequal_total nd x y Wx Wy D) as [-> | ->], (isequal_d_total nd x y Wx Wy D) as [-> | ->];
+    repeat split; discriminate.
+Qed.
+Lemma isequal_refl nd x : wfb x = true -> pair_dom x x = true ->
+  isequal nd x x = Ret true \/ isequal nd x x = Reject.
+Proof.
+  intros Wx D. destruct (isequal_total nd x x Wx Wx D) as [H|H]; auto.
+  left. rewrite H. f_equal. apply gspec_refl; auto. apply Z.eqb_refl.
+Qed.
+Lemma isequal_sym nd x y b : wfb x = true -> wfb y = true -> pair_dom x y = true ->
+  isequal nd x y = Ret b -> isequal nd y x = Ret b \/ isequal nd y x = Reject.
+Proof.
+  intros Wx Wy D H. destruct (isequal_total nd x y Wx Wy D) as [H1|H1]; [|congruence].
+  rewrite pair_dom_sym in D. destruct (isequal_total nd y x Wy Wx D) as [H2|H2]; auto.
+  left. rewrite H2. rewrite H in H1. injection H1 as ->. f_equal. unfold spec_equal. apply gspec_sym, Z.eqb_sym.
+Qed.
+Lemma spec_equal_sym x y : spec_equal x y = spec_equal y x.
+Proof. apply gspec_sym, Z.eqb_sym. Qed.
+Lemma spec_close_sym e x y : spec_close e x y = spec_close e y x.
+Proof. apply gspec_sym, close_sym. Qed.
+
+Lemma isequal_shape_mismatch nd s d s' d' : wfb (Arr s d) = true -> wfb (Arr s' d') = true -> s <> s' ->
+  isequal nd (Arr s d) (Arr s' d') = Ret false /\ isequal_d nd (Arr s d) (Arr s' d') = Ret false.
+Proof.
+  intros W W' N. destruct (wf_arr _ _ W), (wf_arr _ _ W').
+  assert (E : all2 Z.eqb s s' = false).
+  { destruct (all2 Z.eqb s s') eqn:E; [|reflexivity]. apply all2_eqb_eq in E. contradiction. }
+  assert (isequal_arr nd s d s' d' = Ret false) by (rewrite isequal_arr_spec' by tauto; now rewrite E).
+  split; assumption.
+Qed.
+Lemma isequal_length_mismatch nd k l k' l' : length l <> length l' ->
+  isequal_d nd (Idx k l) (Idx k' l') = Ret false /\
+  (isequal nd (Idx k l) (Idx k' l') = Ret false \/ isequal nd (Idx k l) (Idx k' l') = Reject).
+Proof.
+  intros N.
+  assert (D : isequal_d nd (Idx k l) (Idx k' l') = Ret false).
+  { change (isequal_idx k l k' l' = Ret false). rewrite isequal_idx_spec. f_equal. now apply all2_length_ne. }
+  split; [exact D|].
+  change (isequal nd (Idx k l) (Idx k' l')) with
+    (if fixedk k && fixedk k' then (if (length l =? length l')%nat then Ret (all2 Z.eqb l l') else Reject)
+     else isequal_d nd (Idx k l) (Idx k' l')).
+  destruct (fixedk k && fixedk k'); auto. apply Nat.eqb_neq in N. rewrite N. auto.
+Qed.
+
+Lemma isclose_same_shape nd eps s d d' : wfb (Arr s d) = true -> wfb (Arr s d') = true ->
+  isclose nd eps (Arr s d) (Arr s d') = Ret (all2 (close eps) d d').
+Proof.
+  intros W W'. destruct (wf_arr _ _ W), (wf_arr _ _ W').
+  change (isclose_arr nd eps s d s d' = Ret (all2 (close eps) d d')). now apply isclose_arr_same.
+Qed.
